@@ -30,6 +30,7 @@ SHARED = {
     "GenHorner": ["C03", "C08", "C09", "C15"],
     "GenCPow": ["C14"],
     "GenRot": ["C04", "C15", "C19"],
+    "GenEuler": ["C01", "C02", "C07"],
 }
 
 
